@@ -162,8 +162,18 @@ def run_suite(name, tier, seed):
     return res
 
 
+def inductive(tier):
+    """Dense_Ind.tla: the dense storage's two tables stay inverse to each other and every lookup returns the
+    map's value - inductive invariant (design level, histories of any length)"""
+    n = 4 if tier == "quick" else 7
+    return C.inductive_suite("dense_inductive", "Dense_Ind", tier, {"N": n}, "N = %d" % n,
+                             "CONSTANT N = 3", tlc_note="3 ids", safe="MapLike")
+
+
 def check(prop, tier, seed):
     thunks = [(lambda s=s: run_suite(s, tier, seed)) for s in PROP_SUITES[prop]]
+    if prop == "C04":
+        thunks.append(lambda: inductive(tier))
     if prop == "C08":
         from . import cs          # values added to a change set
         thunks.append(lambda: cs.check("C08", tier, seed))
